@@ -584,3 +584,96 @@ func OnceTableGet(k int) int {
 	e.once.Do(func() { e.v = k * 10 })
 	return e.v
 }
+
+// ---- fourth review round ----
+
+func scaleInto(wg *sync.WaitGroup, out []int64, i int, f int64, on bool) {
+	defer wg.Done()
+	if on {
+		out[i] = f
+	}
+}
+
+type lockedBox struct {
+	sync.Mutex
+	n int
+}
+
+func (b *lockedBox) hold() func() { b.Lock(); return b.Unlock }
+
+var theBox lockedBox
+var prefetch sync.Once
+var prefetched int
+
+// Round4: untyped shift / comparison arguments of a go statement, `go once.Do(f)` and
+// `go wg.Wait()`, a promoted method value of an embedded mutex, a read lock released by
+// another goroutine than the one that took it.
+func Round4(d uint) int64 {
+	var wg sync.WaitGroup
+	out := make([]int64, 2)
+	wg.Add(2)
+	go scaleInto(&wg, out, 0, 1<<d, d > 0)
+	go scaleInto(&wg, out, 1, 3, 1 < 2)
+	wg.Wait()
+	go prefetch.Do(func() { prefetched = 7 })
+	prefetch.Do(func() { prefetched = 7 })
+	release := theBox.hold()
+	theBox.n++
+	release()
+	var rw sync.RWMutex
+	var done sync.WaitGroup
+	rw.RLock()
+	done.Add(1)
+	go func() { defer done.Done(); rw.RUnlock() }()
+	done.Wait()
+	rw.Lock()
+	out[1] += int64(prefetched)
+	rw.Unlock()
+	var idle sync.WaitGroup
+	go idle.Wait()
+	return out[0] + out[1]
+}
+
+type rwLocker interface {
+	RLock()
+	RUnlock()
+	Lock()
+	Unlock()
+}
+
+var ifaceGuard rwLocker = &sync.RWMutex{}
+var ifaceMemo = map[string]int{}
+
+type boxedMap struct {
+	sync.Mutex
+	m map[string]int
+}
+
+var boxed = &boxedMap{m: map[string]int{}}
+var rlockGuard sync.RWMutex
+var rlockMemo = map[string]int{"x": 1}
+
+func withLocker(l sync.Locker, f func()) { l.Lock(); defer l.Unlock(); f() }
+
+// IfaceLocks: a lock behind a library-defined interface, a struct that embeds a mutex used
+// as a sync.Locker (and directly elsewhere), the RLocker of an RWMutex.
+func IfaceLocks(k string) int {
+	ifaceGuard.RLock()
+	v, ok := ifaceMemo[k]
+	ifaceGuard.RUnlock()
+	if !ok {
+		ifaceGuard.Lock()
+		ifaceMemo[k] = len(k)
+		v = ifaceMemo[k]
+		ifaceGuard.Unlock()
+	}
+	withLocker(boxed, func() { boxed.m[k] = v })
+	boxed.Lock()
+	v = boxed.m[k]
+	boxed.Unlock()
+	withLocker(rlockGuard.RLocker(), func() { v += rlockMemo["x"] - 1 })
+	rlockGuard.Lock()
+	rlockMemo["x"] = 1
+	rlockGuard.Unlock()
+	return v
+}
